@@ -27,6 +27,37 @@ impl fmt::Display for Credentials {
     }
 }
 
+/// Escapes a string for use inside a quoted JavaScript string literal that is
+/// embedded in an HTML `<script>` element.
+///
+/// Script text is not entity-decoded by browsers, so HTML escaping is wrong
+/// here: quotes, backslashes and line terminators need JavaScript escapes, and
+/// `<`, `>` and `&` are written as escapes so that the value can never form
+/// `</script` or `<!--`.
+fn js_string(s: impl AsRef<str>) -> String {
+    use std::fmt::Write;
+
+    let s = s.as_ref();
+    let mut out = String::with_capacity(s.len());
+    for c in s.chars() {
+        match c {
+            '\\' => out.push_str("\\\\"),
+            '\'' => out.push_str("\\'"),
+            '"' => out.push_str("\\\""),
+            '\n' => out.push_str("\\n"),
+            '\r' => out.push_str("\\r"),
+            '<' | '>' | '&' | '\u{2028}' | '\u{2029}' => {
+                let _ = write!(out, "\\u{:04X}", c as u32);
+            }
+            c if (c as u32) < 0x20 || c == '\u{7f}' => {
+                let _ = write!(out, "\\x{:02X}", c as u32);
+            }
+            c => out.push(c),
+        }
+    }
+    out
+}
+
 struct GraphiQLVersion<'a>(&'a str);
 
 impl Default for GraphiQLVersion<'_> {
